@@ -2,7 +2,7 @@
 import json, os, subprocess
 import vlib, engine_common as ec
 
-TB = ["Print Assumptions: C08_store_is_batch_prefix, C08_store_content, C08_core_sound_after_crash closed under the global context",
+TB = ["Print Assumptions: C08_store_is_batch_prefix, C08_store_content, C08_core_sound_after_crash, C08_model_sound_after_crash closed under the global context",
       "store layer = C10's reorder-pipeline model; engine layer = core fragment with the crash modelled as completed sub-requests + restart",
       "H-backend: a backend commit applies one physical batch atomically and a crash keeps a prefix of physical batches (the in-memory store used here has that by construction; RocksDB WAL-off/atomic flush and Fjall batches are not crash-tested here)",
       "partial: 'store content at a batch boundary = the model's persisted columns' is validated by reopening the real engine on EVERY prefix of the physical commit log of random histories (cache capacities 1..64, grouping 0..3) and judging it with the from-scratch oracle, not proved",
